@@ -268,9 +268,11 @@ def find_stream(ctx):
     a = cands[0]
     roles = {}
     phase = []
+    from . import bodyrules as _BR
+    xlen_adt = _BR.find_exactlen(ctx)[0]
     for f in a["variants"][0]["fields"]:
         t = f["ty"]
-        if t.startswith("std::option::Option<") and "Stream" in t:
+        if t.startswith("std::option::Option<") and (t[len("std::option::Option<"):].split("<")[0] == xlen_adt or "Stream" in t):
             roles["cur"] = f["name"]
         elif t == "usize":
             roles["state"] = f["name"]
